@@ -43,3 +43,26 @@ package config
 //@   ensures [per-user-overrides-default] implies(has(Server.Permissions.Users, userName), permissions == Server.Permissions.Users[userName])
 //@   ensures [default-otherwise] implies(!has(Server.Permissions.Users, userName), permissions == Server.Permissions.Default)
 //@   ensures [empty-is-error] implies(len(permissions) == 0, !isnil(err))
+
+// ---- what start-up does to the parsed configuration (C09) --------------------------------------
+// After the configuration file is parsed, the only server settings the start-up
+// code rewrites are the bind address and (integration-test mode) the line
+// length limit. The job lists, and with them every job's AllowFrom, Name and
+// Enable, reach the password callback exactly as the operator wrote them.
+//@ func transformServer
+//@   requires [ptrs] in != nil && in.Server != nil && args != nil
+//@   assigns in.Server.SSHBindAddress
+//@   ensures [no-error] isnil(result0)
+//@ func (*initializer).processEnvVars
+//@   requires [ptrs] in != nil && in.Server != nil && args != nil
+//@   assigns in.Server.MaxLineLength, args.SSHPrivateKeyFilePath
+//@ func setupLogDirectory
+//@   requires [ptrs] in != nil && in.Common != nil
+//@   assigns in.Common.LogDir
+//@ func setupPlainMode
+//@   requires [ptrs] in != nil && in.Common != nil && in.Client != nil && args != nil
+//@   assigns args.Quiet, args.NoColor, args.LogLevel, in.Client.TermColorsEnable, in.Common.LogLevel
+//@ func (*initializer).setupConfig
+//@   calls-only setupLogDirectory, setupPlainMode, setupAdditionalArgs, dynamic call
+//@ func (*initializer).transformConfig
+//@   calls-only (*initializer).processEnvVars, (*initializer).setupConfig
